@@ -1,4 +1,5 @@
 # pyvc.engine -- path exploration by re-execution under a decision list, obligations, solver access
+import os
 import time
 import z3
 
@@ -38,7 +39,7 @@ class Obligation(object):
         return 'Obligation(%s,%s,%s)' % (self.name, self.kind, self.status)
 
 
-STATS = dict(queries=0, solver_s=0.0, rlimit=0)
+STATS = dict(queries=0, solver_s=0.0, rlimit=0, cvc5_unsat=0, cvc5_unknown=0, cvc5_sat=0, cvc5_s=0.0)
 
 
 class Path(object):
@@ -154,13 +155,55 @@ class Path(object):
                     model = None
             else:
                 st = 'unknown'
+        second = None
+        if st == 'proved' and not isinstance(goal, bool):
+            second = self._second_opinion(name, goal)
+            if second == 'sat':
+                st = 'unknown'                   # the two solvers disagree: undecided, never a violation
         ob = Obligation(name, kind, st, model=model, where=where, seconds=time.time() - t)
-        if st != 'proved':
+        if second == 'sat':
+            ob.detail = dict(reason='z3 answers unsat, cvc5 answers sat on the same query')
+        elif st != 'proved':
             ob.detail = dict(pc_size=len(self.pc))
             if model is not None:
                 ob.detail['inputs'] = self.concretize_inputs(model)
         self.obligations.append(ob)
         return st == 'proved'
+
+    def _second_opinion(self, name, goal):
+        """thorough tier: every VERIF_CVC5_SAMPLE-th discharged obligation is re-checked by /usr/bin/cvc5 on the SMT-LIB text
+        of the same query (path condition + negated goal); returns 'unsat' | 'sat' | 'unknown' | None (not sampled)"""
+        n = int(os.environ.get('VERIF_CVC5_SAMPLE', '0') or 0)
+        if n <= 0:
+            return None
+        self._second_count = getattr(self, '_second_count', 0) + 1
+        import zlib
+        if (zlib.crc32(name.encode()) + self._second_count) % n:
+            return None
+        import subprocess
+        import tempfile
+        t = time.time()
+        try:
+            s2 = z3.Solver()
+            s2.add(*self.solver.assertions())
+            s2.add(z3.Not(goal))
+            text = '(set-logic ALL)\n' + s2.to_smt2()
+            with tempfile.NamedTemporaryFile('w', suffix='.smt2', delete=False) as f:
+                f.write(text)
+                path = f.name
+            try:
+                p = subprocess.run(['/usr/bin/cvc5', '--lang=smt2', '--tlimit=10000', path], capture_output=True, text=True, timeout=20)
+                out = (p.stdout or '').strip().splitlines()
+                r = out[0].strip() if out else 'unknown'
+            finally:
+                os.unlink(path)
+        except Exception:
+            r = 'unknown'
+        if r not in ('unsat', 'sat'):
+            r = 'unknown'
+        STATS['cvc5_' + r] += 1
+        STATS['cvc5_s'] += time.time() - t
+        return r
 
     def concretize_inputs(self, model):
         out = {}
